@@ -6808,6 +6808,14 @@ impl RelationalEngine {
 
         let row_id = slab_row_id.as_u64() + 1;
 
+        // The new row belongs to this transaction until it ends: without a lock another
+        // transaction could update or delete it, and the two undo logs would then disagree.
+        // The id is fresh, so this cannot conflict.
+        let _ = self
+            .tx_manager
+            .lock_manager()
+            .try_lock(tx_id, &[(table.to_string(), row_id)]);
+
         // Update row counter
         self.row_counters
             .entry(table.to_string())
